@@ -703,6 +703,23 @@ def parser_case(draw, **kw):
             spec["add_missing_columns"] = True
             if spec.get("unique"):
                 spec["unique"] = None
+            if draw(st.integers(0, 2)) == 0:
+                # an optional column that is not in the data either, declared in front of the column to be added: only
+                # the required one is to be inserted
+                used = {x["name"] for x in spec["columns"]} | {t["name"] for t in table["columns"]}
+                free = [x for x in ("opt_q", "opt_r") if x not in used]
+                if free:
+                    pos = next(i for i, x in enumerate(spec["columns"]) if x is c)
+                    spec["columns"].insert(pos, {"name": free[0], "dtype": draw(st.sampled_from(["int64", "str", None])),
+                                                 "nullable": False, "unique": False, "checks": [], "required": False})
+            if not spec.get("ordered") and draw(st.integers(0, 1)) == 0:
+                # where the added column is put matters to an ordered schema: switch ordering on when the columns that
+                # are there already follow the schema's order (the pair stays conforming)
+                declared = [x["name"] for x in spec["columns"] if not x.get("regex")]
+                there = [t["name"] for t in table["columns"]]
+                if not any(x.get("regex") for x in spec["columns"]) and all(t in declared for t in there) \
+                        and there == [d for d in declared if d in there]:
+                    spec["ordered"] = True
             opts.append(op)
         elif op == "filter" and kind == "dataframe":
             spec["strict"] = "filter"
